@@ -38,6 +38,10 @@ EXEMPT_FRESH = {
         "guarded by `assert glyphName not in glyphSet`: the layer has no such glyph, so InterpolatedLayer interpolates a new one "
         "(linked obligation R07.7 checks the assertion dominates the store)",
 }
+EXEMPT_FRESH[("Instantiator.from_designspace", "$1.append(($2, {$3.name: $3 for $3 in $4}))")] = (
+    "the instantiator's source layers are replaced by the pre-processor's glyph copies before any filter runs "
+    "(linked obligation R07.7: BaseInterpolatablePreProcessor.__init__ calls _update_instantiator() right after building "
+    "the glyph sets, before any _run)")
 # write events that are only reachable under an option which a linked obligation ties to inplace
 EXEMPT_WRITES = {
     ("CubicToQuadraticFilter.__call__", "$1[CURVE_TYPE_LIB_KEY] = 'quadratic'"):
@@ -310,6 +314,22 @@ def r077(prog, chk, o):
                    detail="writer.write(..., compiler=self): the writers' `compiler is None` branches are unreachable from compile*",
                    message="a feature writer is run without the compiler: it then builds its glyph set from the live font and decomposes skipped components in place")
     need(nw >= 2, "feature writer invocations not found")
+    # (a'') the instantiator works on the glyph copies before any filter can fetch glyphs through it
+    ib = ix.get_method("ufo2ft.preProcessor.BaseInterpolatablePreProcessor", "__init__", own=True)
+    icfg = prog.cfg(ib)
+    upd = [c for c in calls_named(ib, "_update_instantiator") if T(c.func.value) == "self"]
+    gsets = [st for st in A.stmts_of(ib.node) if isinstance(st, ast.Assign) and any(isinstance(t, ast.Attribute) and t.attr == "glyphSets" for t in st.targets)]
+    runs = [c for c in calls_named(ib, "_run", "_run_interpolatable", "process")]
+    ok = bool(upd) and bool(gsets) and all(icfg.dominates(icfg.node_of(g), icfg.node_of(upd[0])) for g in gsets) \
+        and all(icfg.dominates(icfg.node_of(upd[0]), icfg.node_of(r)) for r in runs) \
+        and not any(icfg.exists_path(icfg.entry, [x], avoid=[icfg.node_of(upd[0])]) for x in icfg.normal_exit_preds() if x != icfg.node_of(upd[0]))
+    ui = ix.get_method("ufo2ft.preProcessor.BaseInterpolatablePreProcessor", "_update_instantiator", own=True)
+    rep = [c for c in calls_named(ui, "replace_source_layers")]
+    ok2 = bool(rep) and all(c.args and T(c.args[0]) == "self.glyphSets" for c in rep)
+    chk.ob("R07.7", f"{ib.short}|instantiator switched to the glyph copies before any filter runs", ok and ok2, where(ib),
+           detail="self._update_instantiator() (= instantiator.replace_source_layers(self.glyphSets)) follows the glyph-set construction unconditionally and precedes every _run",
+           message="the Instantiator still serves the caller's own glyph objects (its source layers come from the source fonts) when the "
+                   "first filter runs: a filter that modifies glyphs fetched through InterpolatedLayer (PropagateAnchors) writes to the sources")
     # (b) the interpolated-glyph exemption rests on the assertion
     en = ix.get_method(BASE_IFILTER, "ensureCompositeDefinedAtComponentLocations", own=True)
     cfg = prog.cfg(en)
@@ -361,6 +381,8 @@ MUTANTS = [
       "glyph = self.ufo[name]", "glyph = self.ufo[name]\nglyph.lib['com.github.googlei18n.ufo2ft.hinted'] = True", rule="R07.1"),
     M("default-layer filter applied to the font's live glyphs", "ufo2ft/util.py", "_GlyphSet.from_layer",
       "SkipExportGlyphsFilter(skipExportGlyphs)(font, self)", "SkipExportGlyphsFilter(skipExportGlyphs)(font)", rule="R07"),
+    M("instantiator keeps serving the source glyphs until the first modification", "ufo2ft/preProcessor.py", "BaseInterpolatablePreProcessor.__init__",
+      "self._update_instantiator()", "pass", rule="R07.7"),
     M("interpolated glyph inserted without the absence assertion", "ufo2ft/filters/base.py", "BaseIFilter.ensureCompositeDefinedAtComponentLocations",
       "assert glyphName not in glyphSet", "pass", rule="R07.7"),
     # equivalents
